@@ -74,6 +74,10 @@ class extract_visitor(NodeVisitor):
     def visit_Assign(self, node):
         # type: (ast.Assign) -> None
         eend = get_expr_end(node.value)
+        # the value is evaluated before the targets are bound: regions created
+        # inside it (conditional expressions, comprehensions, lambdas) must not
+        # see the new bindings
+        self.visit(node.value)
         for targets in node.targets:
             for name, _ in get_indexes_for_target(targets, [], []):
                 if isinstance(name, Attribute):
@@ -84,7 +88,8 @@ class extract_visitor(NodeVisitor):
                     name.flow = self.flow  # type: ignore[attr-defined]
                     self.flow.add_name(AssignedName(name.id, eend, np(name), node.value))
 
-        self.generic_visit(node)
+        for targets in node.targets:
+            self.visit(targets)
 
     def visit_AnnAssign(self, node):
         # type: (ast.AnnAssign) -> None
@@ -98,8 +103,12 @@ class extract_visitor(NodeVisitor):
         elif isinstance(name, UNSUPPORTED_ASSIGMENTS):
             pass
         elif node.value:
+            self.visit(node.value)
             name.flow = self.flow  # type: ignore[attr-defined]
             self.flow.add_name(AssignedName(name.id, eend, np(name), node.value))
+            self.visit(node.target)
+            self.visit(node.annotation)
+            return
         self.generic_visit(node)
 
     def visit_If(self, node):
@@ -198,14 +207,14 @@ class extract_visitor(NodeVisitor):
         handlers = []
         for h in node.handlers:
             fh = self.make_flow('except', [cur, body])
+            if h.type:
+                # evaluated after the exception: sees the bindings of the try body
+                fh = self.visit_in_flow(h.type, fh)
             if h.name:
                 if PY2:
                     fh.add_name(AssignedName(h.name.id, np(h.body[0]), np(h), h.type))
                 else:
                     fh.add_name(AssignedName(h.name, np(h.body[0]), np(h), h.type))  # type: ignore[arg-type]
-            if h.type:
-                # evaluated after the exception: sees the bindings of the try body
-                fh = self.visit_in_flow(h.type, fh)
             handlers.append(self.visit_in_flow(h.body, fh))
 
         orelse = self.visit_in_flow(node.orelse,
@@ -323,14 +332,18 @@ class extract_visitor(NodeVisitor):
             items = node.items
 
         for it in items:
+            # the context expression is evaluated before its target is bound
+            self.visit(it.context_expr)
             if it.optional_vars:
                 for nn, _idx in get_indexes_for_target(it.optional_vars, [], []):
                     if not isinstance(nn, AstName):
                         continue
                     name = nn  # type: ast.Name # type: ignore[assignment]
                     self.flow.add_name(AssignedName(name.id, get_expr_end(it.context_expr), np(name), node))
+                self.visit(it.optional_vars)
 
-        self.generic_visit(node)
+        for st in node.body:
+            self.visit(st)
 
     visit_AsyncWith = visit_With
 
@@ -346,10 +359,10 @@ class extract_visitor(NodeVisitor):
     def visit_NamedExpr(self, node):
         # type: (ast.NamedExpr) -> None
         eend = get_expr_end(node.value)
+        self.visit(node.value)
         name = node.target
         name.flow = self.flow  # type: ignore[attr-defined]
         self.flow.add_name(AssignedName(name.id, eend, np(name), node.value))
-        self.generic_visit(node)
 
 
 extract = visitor(extract_visitor)
